@@ -198,13 +198,14 @@ CLAIMED.update({
                 "executable predicate that follows the run), scope_nested_sound for whole loaded rules (Scope2.c01_scope_nested, the "
                 "eight switch sets without matrix); C01_matrix_nested / C01_matrix_quant: the matrix pass with nested blocks and with "
                 "quantifiers whose operands shake_1 shakes safely, scope_quant_all_sound (ALL SIXTEEN switch sets, "
-                "Scope2.c01_scope_quant_all). The runner marks 70 % (sets with matrix; the default switches: 947 of 1340) to "
-                "88-100 % (sets without) of the generated rules as inside a proved scope. Outside (the listed classes D13, D15-D17, D20) "
+                "Scope2.c01_scope_quant_all; C01_d15: scope_quant_all_sound_noq without any exclusion for quantifiers over identifiers, "
+                "after the repair D15/D20). The runner marks 70-96 % of the generated rules as inside a proved scope for every "
+                "switch set (the default switches: 1176 of 1340 = 88 %; sets without shake and matrix: all). Outside (the listed classes D13, D16, D17) "
                 "the model is tied to the crate by the correspondence: "
                 "random rules, forced rules and coverage families x documents x all 16 switch sets, the OPTIMISED TREES compared "
                 "structurally, and every crate-side verdict change must be reproduced by the model AND accepted by the executable "
-                "classifier of a listed finding (D13, D15..D17, D20; Model/Known.v), else it is a VIOLATION. Repaired in the crate on the way: D4, D14, D18/D19, D21, D22, D29, D33.",
-        "note": TB + "PARTIAL by nature: the property is false outside the scopes (D13, D15-D17, D20 are listed findings of the crate); inside them it is proved for every loadable rule. The first versions of several statements were refuted by the proof attempts (counterexamples kept as lemmas).",
+                "classifier of a listed finding (D13, D16, D17; Model/Known.v), else it is a VIOLATION. Repaired in the crate on the way: D4, D14, D15/D20, D18/D19, D21, D22, D29, D33.",
+        "note": TB + "PARTIAL by nature: the property is false outside the scopes (D13, D16, D17 are listed findings of the crate); inside them it is proved for every loadable rule. The first versions of several statements were refuted by the proof attempts (counterexamples kept as lemmas).",
         "technique": "Coq proof for coalesce / rewrite / shake_0 / shake_1 (nested-free) and whole loaded rules inside an executable scope + refutation witnesses; executable optimiser model, structural comparison of optimised trees over 16 switch sets with classifier-gated known findings",
     },
     "C08": {
